@@ -310,7 +310,16 @@ static Type parse_type_with_element(Stage1Parser *p, Type *element_type_out, cha
         
         case TOKEN_FN: {
             /* Function type: fn(type1, type2) -> return_type */
+            /* Function types nest by recursion: count them against the depth limit */
+            p->recursion_depth++;
+            if (p->recursion_depth > MAX_RECURSION_DEPTH) {
+                parser_error(p, tok->line, tok->column, "Error at line %d, column %d: Type nesting depth exceeded maximum (%d).\n",
+                        tok->line, tok->column, MAX_RECURSION_DEPTH);
+                p->recursion_depth--;
+                return TYPE_UNKNOWN;
+            }
             FunctionSignature *sig = parse_function_signature(p);
+            p->recursion_depth--;
             if (sig) {
                 if (fn_sig_out) {
                     *fn_sig_out = sig;
